@@ -98,27 +98,25 @@ theorem step_cont (T p c cs e x o i) (t : List Char) :
   simp [State.addBody, State.addBodyRest, stripPrefix, State.setConfig]
 
 theorem expTextOk_facts {t : List Char} (h : expTextOk expOk t = true) :
-    expOk t = true ∧ stripPrefix ['$', ' '] t = none ∧ extractExitCode t = none := by
+    expOk t = true ∧ stripPrefix ['$', ' '] t = none ∧ extractExitCode t = none ∧
+      exitCodeOverflows t = false := by
   simp only [expTextOk, startsWith, Bool.and_eq_true, Bool.not_eq_true'] at h
   obtain ⟨⟨⟨_, h1⟩, h2⟩, h3⟩ := h
-  refine ⟨h1, ?_, ?_⟩
+  refine ⟨h1, ?_, extractExitCode_of_not_form h3, exitCodeOverflows_of_not_form h3⟩
   · cases hs : stripPrefix ['$', ' '] t with
     | none => rfl
     | some v => simp [hs] at h2
-  · cases hs : extractExitCode t with
-    | none => rfl
-    | some v => simp [hs] at h3
 
 theorem step_exp (T p c cs e x b o i) (t : List Char) (h : expTextOk expOk t = true)
     (hb : b = true → stripPrefix ['>', ' '] t = none) :
     step expOk (' ' :: ind') (mk T p (c :: cs) e x b (some o) dC) i ((' ' :: ind') ++ t) =
       .ok (mk T p (c :: cs) e (x ++ [t]) false (some o) dC) := by
   obtain ⟨h1, h2, h3⟩ := ind_facts ind' t
-  obtain ⟨g1, g2, g3⟩ := expTextOk_facts expOk h
+  obtain ⟨g1, g2, g3, g4⟩ := expTextOk_facts expOk h
   simp only [step, h1, h2, h3]
   cases b with
-  | false => simp [State.addBody, State.addBodyRest, State.setConfig, g1, g2, g3]
-  | true => simp [State.addBody, State.addBodyRest, State.setConfig, g1, g2, g3, hb rfl]
+  | false => simp [State.addBody, State.addBodyRest, State.setConfig, g1, g2, g3, g4]
+  | true => simp [State.addBody, State.addBodyRest, State.setConfig, g1, g2, g3, g4, hb rfl]
 
 theorem extractExitCode_bracket (ds : List Char) (h : exitOk ds = true) :
     extractExitCode ('[' :: (ds ++ [']'])) = some (digitsVal ds) := by
@@ -132,7 +130,8 @@ theorem step_exit (T p c cs x b o i) (ds : List Char) (h : exitOk ds = true) :
   obtain ⟨h1, h2, h3⟩ := ind_facts ind' ('[' :: (ds ++ [']']))
   simp only [step, h1, h2, h3]
   have g := extractExitCode_bracket ds h
-  cases b <;> simp [State.addBody, State.addBodyRest, State.setConfig, stripPrefix, g]
+  have g' := exitCodeOverflows_of_extract g
+  cases b <;> simp [State.addBody, State.addBodyRest, State.setConfig, stripPrefix, g, g']
 
 end steps
 
